@@ -253,39 +253,50 @@ def unmarshalE {V : Type} (C : Codec V) (keySize : Nat) (c : Cell) : Outcome (Li
 
 /-! ## HashmapAug / HashmapAugE (decode side only: MarshalTLB is "not implemented") -/
 
-/-- HashmapAug.mapInner. The extras are not observable through Keys()/Values(): `skipX` = decoding one extra from the
-current position of the cell, returning what is left (bits, refs). A fork decodes its extra after both branches, a
-leaf decodes extra then value. -/
-def mapInnerAug {V : Type} (skipX : List Bool → List Cell → Outcome (List Bool × List Cell)) (C : Codec V)
-    (keySize : Nat) : Nat → Int → Cell → Key → Outcome (List (Key × V))
+/-- decoder of one extra `Y` from the current position of a cell: the value and what is left (bits, refs) -/
+abbrev XDec (Y : Type) := List Bool → List Cell → Outcome (Y × List Bool × List Cell)
+
+/-- HashMapAugExtraList: the tree of extras Go builds next to keys/values. A leaf has Left = Right = nil; below a
+pruned branch (and for an empty dictionary) the node keeps Go's zero value, i.e. looks like a leaf holding `zero`. -/
+inductive AugExtras (Y : Type) where
+  | leaf (data : Y)
+  | fork (data : Y) (left right : AugExtras Y)
+  deriving Repr, Inhabited
+
+/-- HashmapAug.mapInner. A fork decodes its extra after both branches (from the rest of the fork cell: the bits after the
+label, the refs after the two branches), a leaf decodes extra then value. -/
+def mapInnerAug {V Y : Type} (xdec : XDec Y) (zero : Y) (C : Codec V)
+    (keySize : Nat) : Nat → Int → Cell → Key → Outcome (List (Key × V) × AugExtras Y)
   | 0, _, _, _ => .err "fuel"
   | fuel + 1, left, .mk ty _ bits refs, pfx =>
-    if ty = tyPruned then .ok []
+    if ty = tyPruned then .ok ([], .leaf zero)
     else match loadLabel left keySize pfx bits with
       | .ok (size, pfx', rest) =>
         if pfx'.length < keySize then
           match refs with
           | [] => .err "not enough refs"
           | l :: refs' =>
-            match mapInnerAug skipX C keySize fuel (left - (1 + (size : Int))) l (pfx' ++ [false]) with
-            | .ok a =>
+            match mapInnerAug xdec zero C keySize fuel (left - (1 + (size : Int))) l (pfx' ++ [false]) with
+            | .ok (a, xa) =>
               match refs' with
               | [] => .err "not enough refs"
               | r :: refs'' =>
-                match mapInnerAug skipX C keySize fuel (left - (1 + (size : Int))) r (pfx' ++ [true]) with
-                | .ok b =>
+                match mapInnerAug xdec zero C keySize fuel (left - (1 + (size : Int))) r (pfx' ++ [true]) with
+                | .ok (b, xb) =>
                   if ty = tyLibrary then .err "library cell decoding is not configured properly"
-                  else match skipX rest refs'' with
-                    | .ok _ => .ok (a ++ b)
+                  else match xdec rest refs'' with
+                    | .ok (y, _, _) => .ok (a ++ b, .fork y xa xb)
                     | .err e => .err e
                     | .panic p => .panic p
-                | e => e
-            | e => e
+                | .err e => .err e
+                | .panic p => .panic p
+            | .err e => .err e
+            | .panic p => .panic p
         else if ty = tyLibrary then .err "library cell decoding is not configured properly"
-        else match skipX rest refs with
-          | .ok (rest', refs') =>
+        else match xdec rest refs with
+          | .ok (y, rest', refs') =>
             match C.dec rest' refs' with
-            | .ok v => .ok [(pfx', v)]
+            | .ok v => .ok ([(pfx', v)], .leaf y)
             | .err e => .err e
             | .panic p => .panic p
           | .err e => .err e
@@ -293,30 +304,36 @@ def mapInnerAug {V : Type} (skipX : List Bool → List Cell → Outcome (List Bo
       | .err e => .err e
       | .panic p => .panic p
 
-/-- HashmapAugE.UnmarshalTLB: struct { M Maybe ^(HashmapAug n X Y); Extra Y } -/
-def unmarshalAugE {V : Type} (skipX : List Bool → List Cell → Outcome (List Bool × List Cell)) (C : Codec V)
-    (keySize : Nat) (c : Cell) : Outcome (List (Key × V)) :=
+/-- HashmapAug.UnmarshalTLB (also used inline, e.g. AccountBlock.transactions) -/
+def unmarshalAug {V Y : Type} (xdec : XDec Y) (zero : Y) (C : Codec V) (keySize : Nat) (c : Cell) :
+    Outcome (List (Key × V) × AugExtras Y) :=
+  if c.ty = tyLibrary then .err "library cell decoding is not configured properly"
+  else mapInnerAug xdec zero C keySize (keySize + 1) keySize c []
+
+/-- HashmapAugE.UnmarshalTLB: struct { M Maybe ^(HashmapAug n X Y); Extra Y } — entries, extras tree, root extra -/
+def unmarshalAugE {V Y : Type} (xdec : XDec Y) (zero : Y) (C : Codec V)
+    (keySize : Nat) (c : Cell) : Outcome (List (Key × V) × AugExtras Y × Y) :=
   if c.ty = tyLibrary then .err "library cell decoding is not configured properly"
   else match c.bits with
     | [] => .err "not enough bits"
-    | false :: rest => match skipX rest c.refs with
-      | .ok _ => .ok []
+    | false :: rest => match xdec rest c.refs with
+      | .ok (y, _, _) => .ok ([], .leaf zero, y)
       | .err e => .err e
       | .panic p => .panic p
     | true :: rest =>
       match c.refs with
       | [] => .err "not enough refs"
       | r :: refs' =>
-        let m : Outcome (List (Key × V)) :=
-          if r.ty = tyPruned then .ok []
-          else if r.ty = tyLibrary then .err "library cell decoding is not configured properly"
-          else mapInnerAug skipX C keySize (keySize + 1) keySize r []
+        let m : Outcome (List (Key × V) × AugExtras Y) :=
+          if r.ty = tyPruned then .ok ([], .leaf zero)
+          else unmarshalAug xdec zero C keySize r
         match m with
-        | .ok kvs => match skipX rest refs' with
-          | .ok _ => .ok kvs
+        | .ok (kvs, xs) => match xdec rest refs' with
+          | .ok (y, _, _) => .ok (kvs, xs, y)
           | .err e => .err e
           | .panic p => .panic p
-        | e => e
+        | .err e => .err e
+        | .panic p => .panic p
 
 /-! ## Get / Put -/
 
@@ -348,6 +365,13 @@ def put {V : Type} (lt : Key → Key → Bool) (kvs : List (Key × V)) (k : Key)
 /-- Compare of UintN, BitsN (bytes.Compare) and AddressWithWorkchain (uint32 of the sign-extended workchain, then
 bytes.Compare), expressed on the encoded key: unsigned big-endian order -/
 def ltUnsigned (a b : Key) : Bool := Bits.bitsToNat a < Bits.bitsToNat b
+
+/-- `bytes.Compare(a, b) < 0` (Compare of the BitsN key types, on the Go byte arrays) -/
+def ltBytes : List UInt8 → List UInt8 → Bool
+  | [], [] => false
+  | [], _ :: _ => true
+  | _ :: _, [] => false
+  | a :: as, b :: bs => decide (a < b) || (a == b && ltBytes as bs)
 
 /-- Compare of IntN: two's complement numeric order -/
 def ltSigned (a b : Key) : Bool := Bits.bitsToInt a < Bits.bitsToInt b
@@ -414,5 +438,89 @@ def toCell (pay : V → List Bool × List Cell) : Nat → HTree V → Cell
     Cell.ordinary (l.enc m) [toCell pay (m - l.bits.length - 1) lo, toCell pay (m - l.bits.length - 1) hi]
 
 end HTree
+
+/-! ## The typed layer: Go key values and the two parallel slices -/
+
+/-- tlb.UintN.MarshalTLB = WriteUint(uint64(u), n): the low `n` bits, silently (a value outside 0..2^n−1 is truncated) -/
+def encUintKey (n : Nat) (v : Nat) : Outcome Key := .ok (Bits.natToBits n v)
+
+/-- tlb.IntN.MarshalTLB = WriteInt(int64(u), n): width 1 accepts only 0 and −1 (else an error); width ≥ 2 writes the
+sign bit and the low n−1 bits of the value (two's complement of the magnitude for negatives) — values outside
+−2^(n−1)..2^(n−1)−1 are truncated silently -/
+def encIntKey (n : Nat) (v : Int) : Outcome Key :=
+  if n = 0 then .err "integer can't be zero size"
+  else if n = 1 then
+    (if v = -1 then .ok [true] else if v = 0 then .ok [false] else .err "bit length is too small")
+  else .ok (decide (v < 0) :: Bits.natToBits (n - 1) (v % (2 ^ (n - 1) : Int)).toNat)
+
+/-- Hashmap.MarshalTLB on the two slices as Go keeps them (`NewHashmap` may be given slices of different lengths):
+fewer values than keys is an error, surplus values are ignored, no values writes nothing -/
+def marshalSlices {V : Type} (C : Codec V) (keySize : Nat) (keys : List Key) (values : List V) : Outcome Cell :=
+  if values.length < keys.length then .err "hashmap has more keys than values"
+  else if values.isEmpty then .ok (Cell.ordinary [] [])
+  else encodeMap C (maxKeyLen (keys.zip values) + 1) (sortKV (keys.zip values)) keySize
+
+/-- HashmapE.MarshalTLB on the two slices: `Exists` is decided by the keys -/
+def marshalSlicesE {V : Type} (C : Codec V) (keySize : Nat) (keys : List Key) (values : List V) : Outcome Cell :=
+  if keys.isEmpty then .ok (Cell.ordinary [false] [])
+  else match marshalSlices C keySize keys values with
+    | .ok r => .ok (Cell.ordinary [true] [r])
+    | e => e
+
+/-- Items() on the two slices: `h.values[i]` for every key index — an index panic when values are missing -/
+def itemsSlices {V : Type} (keys : List Key) (values : List V) : Outcome (List (Key × V)) :=
+  if values.length < keys.length then .panic "index out of range" else .ok (keys.zip values)
+
+/-! ## SPEC: dictionaries inside Merkle proofs — some subtrees replaced by pruned-branch cells -/
+
+/-- a `Hashmap n X` tree in which any subtree may be a pruned-branch cell (arbitrary mask / data / refs) -/
+inductive PTree (V : Type) where
+  | leaf (l : Lbl) (v : V)
+  | fork (l : Lbl) (lo hi : PTree V)
+  | pruned (mask : Nat) (bits : List Bool) (refs : List Cell)
+
+namespace PTree
+variable {V : Type}
+
+def Valid : Nat → PTree V → Prop
+  | m, leaf l _ => l.bits.length = m
+  | m, fork l lo hi => l.bits.length < m ∧ Valid (m - l.bits.length - 1) lo ∧ Valid (m - l.bits.length - 1) hi
+  | _, pruned _ _ _ => True
+
+/-- the pairs of the un-pruned part, left to right -/
+def meaning : PTree V → List (Key × V)
+  | leaf l v => [(l.bits, v)]
+  | fork l lo hi =>
+    (meaning lo).map (fun kv => (l.bits ++ false :: kv.1, kv.2)) ++
+    (meaning hi).map (fun kv => (l.bits ++ true :: kv.1, kv.2))
+  | pruned _ _ _ => []
+
+def toCell (pay : V → List Bool × List Cell) : Nat → PTree V → Cell
+  | m, leaf l v => Cell.ordinary (l.enc m ++ (pay v).1) (pay v).2
+  | m, fork l lo hi =>
+    Cell.ordinary (l.enc m) [toCell pay (m - l.bits.length - 1) lo, toCell pay (m - l.bits.length - 1) hi]
+  | _, pruned mask bits refs => Cell.mk tyPruned mask bits refs
+
+/-- `Prunes p t`: `p` is `t` with some subtrees replaced by pruned-branch cells -/
+inductive Prunes : PTree V → HTree V → Prop where
+  | leaf (l : Lbl) (v : V) : Prunes (.leaf l v) (.leaf l v)
+  | fork (l : Lbl) {plo phi : PTree V} {lo hi : HTree V} : Prunes plo lo → Prunes phi hi →
+      Prunes (.fork l plo phi) (.fork l lo hi)
+  | pruned (mask : Nat) (bits : List Bool) (refs : List Cell) (t : HTree V) : Prunes (.pruned mask bits refs) t
+
+/-- the path of key `k` is not pruned: walking down along `k` never enters a pruned-branch cell (a key that leaves
+the tree at a label mismatch is covered: its absence is revealed) -/
+def covers : PTree V → Key → Bool
+  | leaf _ _, _ => true
+  | pruned _ _ _, _ => false
+  | fork l lo hi, k =>
+    if k.take l.bits.length == l.bits then
+      match k.drop l.bits.length with
+      | false :: r => covers lo r
+      | true :: r => covers hi r
+      | [] => true
+    else true
+
+end PTree
 
 end Tongo.Hashmap
